@@ -298,3 +298,142 @@ def terse_schema_is_valid(delimiter: str, missing: str, kind_sel: int, fill: str
     f0 = schema["fields"][0]
     return bool(ok) and schema["delimiter"] == delimiter and schema["missing"] == missing and f0["name"] == "colA" \
         and f0["fill"] == fill and f0["type"] == pio.SCSV_TERSEMAP[k] and schema["fields"][1] == {"name": "colB", "type": "string", "fill": ""}
+
+
+# ---------------------------------------------------------------------------------------
+# rows through the real reader loop of read_scsv
+
+_DELIMS = [",", chr(9), ";", "|"]
+
+
+class _CsvText:
+    """csv by its contract for fields without delimiter / quote / line break: the writer joins the fields with the
+    delimiter (a lone empty field is written as a pair of quotes), the reader splits each line on the delimiter,
+    drops blanks that follow a delimiter when skipinitialspace is set, and yields no fields for an empty line."""
+
+    writer = _Writer
+
+    @staticmethod
+    def reader(lines, delimiter=",", skipinitialspace=False, **kw):
+        # character loop on purpose: CrossHair 0.0.110 mis-models `line[:-1]` / `endswith` on symbolic concatenations
+        out = []
+        for line in lines:
+            fields, cur, n = [], "", 0
+            for ch in line:
+                if ch == chr(10):
+                    break
+                n += 1
+                if ch == delimiter:
+                    fields.append(cur)
+                    cur = ""
+                elif ch == " " and skipinitialspace and cur == "":
+                    continue
+                else:
+                    cur += ch
+            if n == 0:
+                out.append([])
+                continue
+            fields.append(cur)
+            if fields == [chr(34) * 2]:
+                fields = [""]
+            out.append(fields)
+        return iter(out)
+
+
+class _Yaml:
+    schema = None
+
+    @staticmethod
+    def safe_load(stream):
+        return {"schema": _Yaml.schema}
+
+
+class _Lines:
+    def __init__(self, lines):
+        self.lines = lines
+
+    def __iter__(self):
+        return iter(self.lines)
+
+    def __enter__(self):
+        return self
+
+    def __exit__(self, *a):
+        return False
+
+
+def _roundtrip_rows(delimiter: str, missing: str, fills, rows):
+    """Real save_scsv (recording writer) -> text lines by csv's contract -> real read_scsv (its own line loop,
+    header check and cell parser; YAML loader replaced: the reader sees the schema given to the writer)."""
+    rec = _Rec()
+    saved = (pio.__dict__.get("open"), pio.resolve_path, pio.csv, pio.np, pio._log, pio.yaml)
+    schema = {"delimiter": delimiter, "missing": missing, "fields": [{"name": "c" + str(i), "type": "string", "fill": f} for i, f in enumerate(fills)]}
+    state = {"mode": "w"}
+
+    def opener(*a, **k):
+        return rec if state["mode"] == "w" else _Lines(state["lines"])
+
+    pio.open = opener
+    pio.resolve_path = lambda p_, refdir=None: _Path()
+    pio.csv = _CsvText
+    pio.np = _Np
+    pio._log = _Log
+    pio.yaml = _Yaml
+    _Yaml.schema = schema
+    try:
+        pio.save_scsv("f.scsv", schema, [list(col) for col in zip(*rows)])
+        lines = ["---" + chr(10), "schema: as given to the writer" + chr(10), "---" + chr(10)]
+        for row in rec.rows:
+            lines.append((chr(34) * 2 if (len(row) == 1 and row[0] == "") else delimiter.join(str(x) for x in row)) + chr(10))
+        state["mode"], state["lines"] = "r", lines
+        back = pio.read_scsv("f.scsv")
+    finally:
+        if saved[0] is None:
+            del pio.open
+        else:
+            pio.open = saved[0]
+        pio.resolve_path, pio.csv, pio.np, pio._log, pio.yaml = saved[1:]
+    return [tuple(col) for col in back]
+
+
+def _rows_contract(c1: str, c2: str, missing: str, d: str) -> bool:
+    fills = ["x", ""]
+    rows = [[c1, c2], [fills[0], fills[1]]]
+    back = _roundtrip_rows(d, missing, fills, rows)
+    return back == [tuple(r[0] for r in rows), tuple(r[1] for r in rows)]
+
+
+def rows_through_reader_comma(c1: str, c2: str, missing: str) -> bool:
+    """
+    pre: len(c1) <= 1 and len(c2) <= 1 and len(missing) <= 1
+    pre: c1 == c1.strip() and c2 == c2.strip() and missing == missing.strip()
+    pre: all(ch not in c1 + c2 + missing for ch in (chr(10), chr(13), chr(34), ",", chr(9), ";", "|"))
+    pre: c1 != missing and c2 != missing
+    post: _
+    raises: SCSVError
+    """
+    return _rows_contract(c1, c2, missing, ",")
+
+
+def rows_through_reader_tab(c1: str, c2: str, missing: str) -> bool:
+    """
+    pre: len(c1) <= 1 and len(c2) <= 1 and len(missing) <= 1
+    pre: c1 == c1.strip() and c2 == c2.strip() and missing == missing.strip()
+    pre: all(ch not in c1 + c2 + missing for ch in (chr(10), chr(13), chr(34), ",", chr(9), ";", "|"))
+    pre: c1 != missing and c2 != missing
+    post: _
+    raises: SCSVError
+    """
+    return _rows_contract(c1, c2, missing, chr(9))
+
+
+def rows_through_reader_semicolon(c1: str, c2: str, missing: str) -> bool:
+    """
+    pre: len(c1) <= 1 and len(c2) <= 1 and len(missing) <= 1
+    pre: c1 == c1.strip() and c2 == c2.strip() and missing == missing.strip()
+    pre: all(ch not in c1 + c2 + missing for ch in (chr(10), chr(13), chr(34), ",", chr(9), ";", "|"))
+    pre: c1 != missing and c2 != missing
+    post: _
+    raises: SCSVError
+    """
+    return _rows_contract(c1, c2, missing, ";")
